@@ -613,3 +613,98 @@ func condIsLenTest(cond ssa.Value) bool {
 	}
 	return false
 }
+
+// ---------------------------------------------------------------------------
+// R10e
+
+// r10PartialTruncate: a struct value that is recycled inside a container (read
+// out of a map or slice, some of its slice fields truncated with `f = f[:0]`,
+// written back) must have *all* its slice fields truncated: the fields left
+// alone keep the previous document's elements and are appended to again.
+// The pinned tree has no such recycling (it deletes the entries instead); the
+// clause is exercised by the self-test on every thorough run.
+func r10PartialTruncate(c *RuleCtx) {
+	props := []string{"C02", "C10"}
+	n := 0
+	for _, fn := range c.p.ZapFuncs {
+		eachInstr(fn, func(_ *ssa.BasicBlock, in ssa.Instruction) {
+			al, ok := in.(*ssa.Alloc)
+			if !ok {
+				return
+			}
+			st, ok := derefType(al.Type()).Underlying().(*types.Struct)
+			if !ok {
+				return
+			}
+			var sliceFields []int
+			for i := 0; i < st.NumFields(); i++ {
+				if _, isSlice := st.Field(i).Type().Underlying().(*types.Slice); isSlice {
+					sliceFields = append(sliceFields, i)
+				}
+			}
+			if len(sliceFields) < 2 {
+				return
+			}
+			truncated := map[int]bool{}
+			writtenBack := false
+			var at ssa.Instruction
+			for _, r := range *al.Referrers() {
+				switch x := r.(type) {
+				case *ssa.FieldAddr:
+					for _, r2 := range *x.Referrers() {
+						s, ok := r2.(*ssa.Store)
+						if !ok || s.Addr != ssa.Value(x) {
+							continue
+						}
+						sl, ok := s.Val.(*ssa.Slice)
+						if !ok || sl.High == nil {
+							continue
+						}
+						if k, ok := constInt64(sl.High); !ok || k != 0 {
+							continue
+						}
+						// of the field's own old value
+						if u, ok := sl.X.(*ssa.UnOp); ok {
+							if fa, ok := u.X.(*ssa.FieldAddr); ok && fa.X == ssa.Value(al) && fa.Field == x.Field {
+								truncated[x.Field] = true
+								at = s
+							}
+						}
+					}
+				case *ssa.UnOp:
+					// the whole value read and stored into a container
+					for _, r2 := range *x.Referrers() {
+						switch y := r2.(type) {
+						case *ssa.MapUpdate:
+							if y.Value == ssa.Value(x) {
+								writtenBack = true
+							}
+						case *ssa.Store:
+							if _, isIA := y.Addr.(*ssa.IndexAddr); isIA && y.Val == ssa.Value(x) {
+								writtenBack = true
+							}
+						}
+					}
+				}
+			}
+			if len(truncated) == 0 || !writtenBack {
+				return
+			}
+			n++
+			var missing []string
+			for _, i := range sliceFields {
+				if !truncated[i] {
+					missing = append(missing, st.Field(i).Name())
+				}
+			}
+			name := "?"
+			if nt := namedOf(derefType(al.Type())); nt != nil {
+				name = nt.Obj().Name()
+			}
+			c.add(statusOf(len(missing) == 0), fmt.Sprintf("partial-truncate/%s/%s", funcShortName(fn), name), c.p.instrPos(at),
+				"a "+name+" recycled inside its container has every slice field truncated",
+				"slice field(s) "+strings.Join(missing, ", ")+" are not truncated with the others: they keep the previous use's elements and grow with every reuse (values of one document attributed to the next)", props, nil)
+		})
+	}
+	c.okP(props, "partial-truncate/sites", "-", fmt.Sprintf("recycled struct values with truncated slice fields: %d (the pinned tree has none; the clause is kept alive by a seeded edit of the self-test)", n))
+}
